@@ -315,6 +315,8 @@ fn ws_handler(mut ws: WebsocketStream, st: Arc<Shared>) {
     let mut last_none = false;
     let mut streak = 0usize; // consecutive (avail = 0, none) polls
     let mut nap = 200u64;
+    let mut qn = 0u64; // numbering of the thinned-out polls
+    let mut prev_q: Option<u64> = None;
     // preamble: a handler that mixes the calls - poll once while nothing can be pending, then (pollpush) send a
     // message of its own, then go on receiving in its mode
     if ctx.pre != "none" {
@@ -358,12 +360,21 @@ fn ws_handler(mut ws: WebsocketStream, st: Arc<Shared>) {
         if ctx.nb && last_none && stop && avail == 0 {
             break;
         }
-        // a poll that saw nothing and got `none`, directly after two such polls, is not logged again
+        // Long streaks of polls that saw nothing and got `none` are thinned out: from the third on, a poll REPLACES the
+        // previous one of the streak in the log. That is sound: consecutive `none` polls - each may have consumed Pings /
+        // Pongs that arrived after its FIONREAD - are one `none` poll at the position of the last one as far as the spec
+        // is concerned. (Dropping such a poll altogether is not: the spec then has no call in which to consume a Ping
+        // that arrived during it, and its Pong looks unexplained.)
         let quiet = ctx.nb && avail == 0 && streak >= 2;
-        let mut pending_call = None;
         if quiet {
-            pending_call = Some(json!({"e": "call", "avail": avail, "nb": ctx.nb}));
+            qn += 1;
+            let mut lg = ctx.log.lock().unwrap();
+            if let Some(p) = prev_q {
+                lg.retain(|e| e["q"] != json!(p));
+            }
+            lg.push(json!({"e": "call", "avail": avail, "nb": ctx.nb, "q": qn}));
         } else {
+            prev_q = None;
             ctx.log(json!({"e": "call", "avail": avail, "nb": ctx.nb}));
         }
         let r: Result<Restion<Message, WebsocketError>, _> = catch_unwind(AssertUnwindSafe(|| {
@@ -373,11 +384,8 @@ fn ws_handler(mut ws: WebsocketStream, st: Arc<Shared>) {
                 ws.recv().into()
             }
         }));
-        let is_none = matches!(r, Ok(Restion::None));
-        if !is_none {
-            if let Some(c) = pending_call.take() {
-                ctx.log(c);
-            }
+        if !matches!(r, Ok(Restion::None)) {
+            prev_q = None;
         }
         last_none = false;
         match r {
@@ -403,7 +411,10 @@ fn ws_handler(mut ws: WebsocketStream, st: Arc<Shared>) {
                 } else {
                     streak = 0;
                 }
-                if !quiet {
+                if quiet {
+                    ctx.log(json!({"e": "ret", "kind": "none", "text": false, "pay": [], "q": qn}));
+                    prev_q = Some(qn);
+                } else {
                     ctx.log(json!({"e": "ret", "kind": "none", "text": false, "pay": []}));
                 }
                 thread::sleep(Duration::from_micros(nap));
